@@ -19,7 +19,7 @@ SPECS = os.path.join(ROOT, "specs")
 HARNESS = os.path.join(ROOT, "harness")
 WORK = os.path.join(ROOT, "work")
 EVID = os.path.join(ROOT, "evidence")
-BIN = os.path.join(HARNESS, "target", "release")
+BIN = os.environ.get("VERIF_BIN_DIR") or os.path.join(HARNESS, "target", "release")   # (dev: coverage-instrumented drivers)
 REPO = "/repo"
 
 
